@@ -48,11 +48,14 @@
 (* command e -- one instantiation G_j[g] in its func main -- was built     *)
 (* earlier in the same session (`gopherjs install e m`, tool.go).          *)
 (*                                                                         *)
-(* OUTPUT.  The sequence of tokens <<tag, pkg, n1, n2, n3, payload>> of    *)
-(* the linked program:  pkg (sorted/unsorted import list), inst (one       *)
+(* OUTPUT.  The sequence of tokens <<tag, pkg, n1, n2, n3, payload, ord>>   *)
+(* of the linked program:  pkg (sorted/unsorted import list), inst (one    *)
 (* translated instance: declaration, method flag, NUMERIC ID, type         *)
-(* arguments), ref (a use of an instance by numeric id inside an instance  *)
-(* or a root), root, esc (parameter list of the closure wrapper).          *)
+(* arguments, ordinal in the package's translation order = numbering of    *)
+(* the anonymous types it allocates), ref (a use of an instance by numeric *)
+(* id inside an instance or a root), root, esc (parameter list of the      *)
+(* closure wrapper).  Dead-code elimination at link time drops the         *)
+(* instances nobody refers to (by NAME, not by id).                        *)
 (*                                                                         *)
 (* PROPERTY (cfg: INVARIANTS).                                             *)
 (*   Reproducible   at the end  out = RefOut, the output of the canonical  *)
@@ -192,20 +195,25 @@ IdIn(S, x) ==
   LET p == PkgOf(decls, x) IN
   IF p \in DOMAIN S /\ (\E i \in 1..Len(S[p]) : S[p][i] = x) THEN (CHOOSE i \in 1..Len(S[p]) : S[p][i] = x) - 1 ELSE 0 - 1
 \* (TLCEval: function constructors are lazy values in TLC, every access would evaluate the body again)
-RefToks(S, xs) == TLCEval([q \in 1..Len(xs) |-> <<"ref", PkgOf(decls, xs[q]), xs[q].d, xs[q].m, IdIn(S, xs[q]), Env(xs[q])>>])
+RefToks(S, xs) == TLCEval([q \in 1..Len(xs) |-> <<"ref", PkgOf(decls, xs[q]), xs[q].d, xs[q].m, IdIn(S, xs[q]), Env(xs[q]), 0>>])
 \* a UNIT is one declaration of an archive: [tok, refs]
 InstUnits(S, p, i) ==      \* the instances of declaration i in the order of the package's set (InstanceSet.ForObj)
   IF p \notin DOMAIN S THEN <<>> ELSE
   Flat([q \in 1..Len(S[p]) |->
           IF S[p][q].d = i
-          THEN <<[tok |-> <<"inst", p, i, S[p][q].m, q - 1, Env(S[p][q])>>, refs |-> RefToks(S, ImplAdds(decls, S[p][q]))]>>
+          THEN <<[tok |-> <<"inst", p, i, S[p][q].m, q - 1, Env(S[p][q]), 0>>, refs |-> RefToks(S, ImplAdds(decls, S[p][q]))]>>
           ELSE <<>>])
+\* While an instance is translated the package allocates names for the anonymous types it meets
+\* (pkgCtx.anonTypes: ptrType$3, sliceType$1, ... numbered in discovery order): the names inside an
+\* instance depend on how many instances were translated before it.  The last token component is
+\* that ordinal (an over-approximation: an instance that needs no new anonymous type shifts nothing).
+Numbered(us) == TLCEval([q \in 1..Len(us) |-> [tok |-> [us[q].tok EXCEPT ![7] = q], refs |-> us[q].refs]])
 PkgToks(p, S, ford, es, sortImp) ==
-  <<[tok |-> <<"pkg", p, 0, 0, 0, ImportList(p, ford, sortImp)>>, refs |-> <<>>]>>
-  \o Flat([i \in 1..Len(decls) |-> IF decls[i].pkg = p THEN InstUnits(S, p, i) ELSE <<>>])
+  <<[tok |-> <<"pkg", p, 0, 0, 0, ImportList(p, ford, sortImp), 0>>, refs |-> <<>>]>>
+  \o Numbered(Flat([i \in 1..Len(decls) |-> IF decls[i].pkg = p THEN InstUnits(S, p, i) ELSE <<>>]))
   \o (LET ix == TLCEval(RootIdxSeq(p, ford)) IN
-      TLCEval([q \in 1..Len(ix) |-> [tok |-> <<"root", p, ix[q], 0, 0, <<>>>>, refs |-> RefToks(S, RootAdds(decls, roots[ix[q]]))]]))
-  \o (IF p = "m" THEN <<[tok |-> <<"esc", p, 0, 0, 0, es>>, refs |-> <<>>]>> ELSE <<>>)
+      TLCEval([q \in 1..Len(ix) |-> [tok |-> <<"root", p, ix[q], 0, 0, <<>>, 0>>, refs |-> RefToks(S, RootAdds(decls, roots[ix[q]]))]]))
+  \o (IF p = "m" THEN <<[tok |-> <<"esc", p, 0, 0, 0, es, 0>>, refs |-> <<>>]>> ELSE <<>>)
 \* WriteProgramCode: dead-code elimination over the declarations of all archives.  A declaration of an
 \* instance is selected through its NAME (object and type arguments, dce.Info), never through its
 \* numeric id; roots (reached from main), import lists and the closure are always alive.
